@@ -8,7 +8,9 @@
 // without RTSP consumers), forward and backward timestamp
 // jumps that stay >= the track's first timestamp, streams that run across the
 // roll-over of the 32-bit RTMP timestamp and streams whose PTS field passes
-// 2^33) into a real in-process lal.  Consumers: HTTP-TS subscribers, RTSP
+// 2^33, either track's clock ahead of the other at the start at zero and
+// non-zero time bases, the second track appearing as late as the 16th message
+// of the stream) into a real in-process lal.  Consumers: HTTP-TS subscribers, RTSP
 // subscribers with RTP interleaved and RTSP subscribers with RTP over UDP (real
 // loopback sockets) joining at generated points, and the HLS segment files read
 // in record-playlist order after the publisher left.  Independent demuxers
